@@ -8,7 +8,8 @@ from framework.report import Report
 RULE = ("every vector yielded by solve()/returned by minimize()/maximize() (backtracking solver, both modes; the "
         "multiprocessing solver through real processes on a subset) is checked in full: inside its declared domain, "
         "aliases differ by their offsets, O-sem of every posted constraint. Workload: random in-contract models x "
-        "random configurations, plus every constraint type posted alone. distinct = distinct (model, cfg, operation); "
+        "random configurations, plus every constraint type posted alone, plus large models built around a planted "
+        "assignment (8-35 variables, arity <= 12, compiled mode under a logical pass budget). distinct = distinct (model, cfg, operation); "
         "non-trivial = the run made >= 1 choice and delivered or refuted something")
 
 
@@ -38,10 +39,15 @@ def main(tier, seed):
                                   streams=single_type_jobs(tier, seed), per_job=45 if tier == "quick" else 800)
     from framework.props import mpfamily
 
+    from framework.props import bigrun
+
     jobs.extend(mpfamily.c01_jobs(tier, seed))
+    jobs.extend(bigrun.jobs("C01", tier, seed))
     common.run_jobs(jobs)
     modelfamily.aggregate(rep, [j for j in jobs if j.module == "framework.props.models"])
-    mpfamily.aggregate(rep, [j for j in jobs if j.module != "framework.props.models"])
+    mpfamily.aggregate(rep, [j for j in jobs if j.module == "framework.props.mpfamily"])
+    bigrun.aggregate(rep, [j for j in jobs if j.module == "framework.props.bigrun"])
+    rep.need("big.solutions_checked_against_O-sem", 2000, "solution checker on large models (8-35 variables, arity <= 12)")
     rep.need("solutions_checked_against_O-sem", 3000, "solution checker")
     rep.need("runs_jit", 200, "compiled runs")
     rep.assumptions = ["O-sem predicates are a faithful reading of docs/source/reference.rst",
